@@ -12,6 +12,7 @@ import I18n.Driver.Msg
 import I18n.Driver.FmtCheck
 import I18n.Driver.Hdr
 import I18n.Driver.Po
+import I18n.Driver.Deb
 /- Line-protocol driver: `<model> <op> <args…>` per line on stdin, one canonical line per op on stdout. -/
 open I18n.Driver
 
@@ -31,6 +32,7 @@ def step (line : String) : String :=
   | "fmtcheck" :: op :: args => FmtCheck.handle op args
   | "hdr" :: op :: args => Hdr.handle op args
   | "po" :: op :: args => Po.handle op args
+  | "deb" :: op :: args => Deb.handle op args
   | _ => "bad-op"
 
 partial def loop (h : IO.FS.Stream) (out : IO.FS.Stream) : IO Unit := do
